@@ -212,14 +212,23 @@ class Checker:
         """
         finfo = self.fileinfo
 
-        if "length" in self.info:
+        length = self.info.get("length")
+        if length is None and self.meta_version > 1:
+            # a v2 single file torrent needs no length in the info dict,
+            # it is described by a file tree that only holds its name.
+            tree = self.info["file tree"]
+            leaf = tree.get(self.name, {}).get("") if len(tree) == 1 else None
+            if leaf is not None and os.path.isfile(self.root):
+                length = leaf["length"]
+
+        if length is not None:
             self.log_msg("%s points to a single file", self.root)
-            self.total = self.info["length"]
+            self.total = length
             self.paths.append(str(self.root))
 
             finfo[0] = {
                 "path": self.root,
-                "length": self.info["length"],
+                "length": length,
             }
 
             if self.meta_version > 1:
